@@ -361,17 +361,20 @@ class Obj(Shape):
 class Rec(Shape):
     """An immutable record-like opaque value whose attributes are read through
     uninterpreted field functions; natively a SimpleNamespace-like object."""
-    def __init__(self, tag='rec', attrs=None, truthy=True):
+    def __init__(self, tag='rec', attrs=None, truthy=True, isa=None, native=None):
+        self.native = native     # callable(attrs dict) -> real object, for native evaluation / replay
         self.tag = tag
         self.attrs = dict(attrs or {})
         self.truthy = truthy     # named tuples and directives are never falsy
+        self.isa = isa           # qualified class name the value is an instance of (for isinstance tests)
 
     def enum(self, budget=3):
         names = list(self.attrs)
         pools = [self.attrs[n].enum(budget) for n in names]
         out = []
         for combo in itertools.islice(itertools.product(*pools), 60):
-            out.append(Record(self.tag, dict(zip(names, combo))))
+            attrs = dict(zip(names, combo))
+            out.append(self.native(attrs) if self.native is not None else Record(self.tag, attrs))
         return out
 
 
@@ -395,7 +398,7 @@ class Old:
 class Contract:
     FIELDS = ('params', 'closure', 'requires', 'ensures', 'ghost', 'raises', 'modifies', 'loops',
               'assumes', 'props', 'inline', 'native', 'result', 'tier', 'unroll', 'globals',
-              'scope', 'note', 'kind', 'decreases', 'lemmas', 'timeout', 'modular', 'must_raise', 'raises_iff', 'externals', 'callees')
+              'scope', 'note', 'kind', 'decreases', 'lemmas', 'timeout', 'modular', 'must_raise', 'raises_iff', 'externals', 'callees', 'method_results', 'use')
 
     def __init__(self, target, cls, variant=None):
         self.target = target
@@ -427,6 +430,8 @@ class Contract:
         self.raises_iff = True
         self.externals = {}
         self.callees = {}
+        self.method_results = {}
+        self.use = None
         for k, v in vars(cls).items():
             if k.startswith('_'):
                 continue
